@@ -40,8 +40,19 @@
     old list into the new one.  (Reader fidelity on both slices, Proofs/FidelityElems; the slices `Table.Diff` leaves,
     Proofs/DiffElems; refinement of `MigrationIndexUp` / `MigrationForeignKeyUp`, Proofs/IdxRefine; Abs/Idx.lean.)
 
+  * `indexes_with_dropped_columns` — **… and with dropped columns**: `MigrationColumnUp` returns, beside the column
+    statements, the list `dc` of dropped columns (all of them columns the new table does not have); `MigrationIndexUp`
+    called with it prints exactly `Abs.Idx.emitSup dc` of the reference index lists — the DROP of an old-only index all
+    of whose columns are dropped is suppressed, because the reference engine's DROP COLUMN strips the column from every
+    index and deletes an index left empty (`Abs.Idx.prune`, `dropCols_idxs`) —, and executed on what the DROP COLUMN
+    statements leave of the old index list these statements are well-formed at every step and give the new index list
+    up to order, **unless** an index is redefined under its name while every column of its old definition is dropped:
+    exactly the recorded finding `index-redefined-old-columns-dropped` (its DROP INDEX names an index that is gone).
+    (`Abs.Idx.plan_correct`: the general form — a plan of per-name drop / create / replace steps; Abs/IdxDrop.lean;
+    the reference engine keeps every index non-empty and within its table's columns, Proofs/SpecWF.lean.)
+
   Missing for `Statement_partial`: the attribute lemmas (a MODIFY for exactly the columns whose type or options
-  differ), the primary key, and the interplay of dropped columns with the indexes on them (drop suppression).  Those parts are covered by the correspondence run and
+  differ), the primary key, and the lift from one table's lists to the whole reference schema.  Those parts are covered by the correspondence run and
   by the executable predicate `Spec.c01` evaluated on the implementation's printed migration on every check.
 -/
 import SqlizeModel.Abs.Columns
@@ -122,6 +133,42 @@ theorem indexes_and_keys_from_scripts (g : Globals) (hg : g.dialect = .mysql) (r
   by
     obtain ⟨td, h1, h2, h3, h4, h5, _⟩ := elems_end_to_end g hg rc old new dbO dbN ho hn heo hen d hd t tbO tbN hfo hfn
     exact ⟨td, h1, h2, h3, h4, h5⟩
+
+/-- index clause of C01 with dropped columns, from scripts to printed statements (MySQL reader model, default order) -/
+theorem indexes_with_dropped_columns (g : Globals) (hg : g.dialect = .mysql) (hio : g.ignoreOrder = false) (rc : Bool)
+    (old new : List Stmt) (dbO dbN : DB) (ho : old.all Stmt.elemSafe = true) (hn : new.all Stmt.elemSafe = true)
+    (heo : execAll rc [] old = some dbO) (hen : execAll rc [] new = some dbN)
+    (d : Migration) (hd : loadAndDiff g old new = .ok d)
+    (t : String) (tbO tbN : TableSpec) (hfo : dbO.find t = some tbO) (hfn : dbN.find t = some tbN)
+    (hne : ∀ n ∈ tbN.colNames ++ tbO.colNames, n ≠ "") :
+    ∃ td ∈ d.tables, td.name = t ∧ td.action = .none ∧
+      ∃ cs dc ss, td.migrationColumnUp g = .ok (cs, dc) ∧ td.migrationIndexUp g dc = .ok ss ∧
+        (∀ c ∈ dc, c ∉ tbN.colNames) ∧
+        ss.filterMap idxStmt = Abs.Idx.emitSup dc tbN.idxs tbO.idxs ∧
+        ((∀ s ∈ tbN.idxs, ∀ o ∈ tbO.idxs, o.name = s.name → o ≠ s → ∃ c ∈ o.cols, c ∉ dc) →
+          ∃ R, Abs.Idx.execAll (Abs.Idx.prune dc tbO.idxs) (ss.filterMap idxStmt) = some R ∧ R.Perm tbN.idxs) :=
+  indexes_with_drops_end_to_end g hg hio rc old new dbO dbN ho hn heo hen d hd t tbO tbN hfo hfn hne
+
+-- non-vacuity of `indexes_with_dropped_columns`: column `b` is dropped; the index on `b` alone needs no DROP INDEX
+-- (suppressed), the index on (a, b) — stripped to (a) by the DROP COLUMN — is dropped, a new one is created
+def exOldD : List Stmt :=
+  [.createTable "t" 0 [{ name := "a", typ := "int(11)" }, { name := "b", typ := "int(11)" }, { name := "c", typ := "text" }] [],
+   .createIndex "t" "i_b" ["b"] false "",
+   .createIndex "t" "i_ab" ["a", "b"] false "",
+   .createIndex "t" "i_c" ["c"] true ""]
+def exNewD : List Stmt :=
+  [.createTable "t" 0 [{ name := "a", typ := "int(11)" }, { name := "c", typ := "text" }] [],
+   .createIndex "t" "i_c" ["c"] true "",
+   .createIndex "t" "i_a" ["a"] false ""]
+example : exOldD.all Stmt.elemSafe = true ∧ exNewD.all Stmt.elemSafe = true ∧
+    (execAll true [] exOldD).isSome = true ∧ (execAll true [] exNewD).isSome = true := by decide
+example : ∃ d, loadAndDiff {} exOldD exNewD = .ok d ∧
+    (d.tables.map (fun t => match t.migrationColumnUp {} with
+      | .ok (_, dc) => (dc, (t.migrationIndexUp {} dc).toOption.map (·.filterMap idxStmt))
+      | .error _ => ([], none))) =
+      [(["b"], some [.create ⟨"i_a", ["a"], false, "BTREE"⟩, .drop "i_ab"])] := ⟨_, by rfl, by decide⟩
+example : Abs.Idx.prune ["b"] [⟨"i_b", ["b"], false, "BTREE"⟩, ⟨"i_ab", ["a", "b"], false, "BTREE"⟩, ⟨"i_c", ["c"], true, "BTREE"⟩] =
+    [⟨"i_ab", ["a"], false, "BTREE"⟩, ⟨"i_c", ["c"], true, "BTREE"⟩] := by decide
 
 -- non-vacuity of `indexes_and_keys_from_scripts`: an index redefined under its name, one kept, one new, one dropped,
 -- a table-level primary key on one side; a foreign key added and one dropped
